@@ -125,11 +125,31 @@ fn corr_dim<P: Coordinate>(rng: &mut Rng, dyadic: bool, stats: &mut Stats) {
     }
 }
 
+/// a random path: start point only, or 1..6 curves (all coordinates arbitrary: the operation only moves them)
+fn gen_path(rng: &mut Rng) -> SimpleBezierPath {
+    let n = rng.i(7) as usize;
+    let start = Coord2(rng.dyadic(-64, 64, 8), rng.dyadic(-64, 64, 8));
+    let pts: Vec<(Coord2, Coord2, Coord2)> = (0..n).map(|_| (Coord2(rng.r(-100.0, 100.0), rng.r(-100.0, 100.0)), Coord2(rng.r(-100.0, 100.0), rng.r(-100.0, 100.0)), Coord2(rng.r(-100.0, 100.0), rng.r(-100.0, 100.0)))).collect();
+    (start, pts)
+}
+
+/// BezierPath::reversed against the generated `path_reversed` (no arithmetic: bit-exact)
+fn corr_path(rng: &mut Rng, stats: &mut Stats) {
+    let path = gen_path(rng);
+    let rev: SimpleBezierPath = path.reversed();
+    let fl = |p: &SimpleBezierPath| { let mut v = vec![p.0 .0, p.0 .1]; for (a, b, c) in &p.1 { v.extend_from_slice(&[a.0, a.1, b.0, b.1, c.0, c.1]); } v };
+    let line = format!("C05 pathrev D {} | #{} {}", hxs(&fl(&path)), rev.1.len(), hxs(&fl(&rev)));
+    stats.case(&line, path.1.len() > 1);
+    stats.count(&format!("pathrev.curves_{}", path.1.len()));
+    println!("{}", line);
+}
+
 pub fn corr(seed: u64, n: u64) {
     let mut rng = Rng(seed ^ 0xC05);
     let mut stats = Stats::new();
     for i in 0..n {
         let dyadic = i % 2 == 0;
+        if i % 16 == 15 { corr_path(&mut rng, &mut stats); continue; }
         match rng.i(3) {
             0 => corr_dim::<f64>(&mut rng, dyadic, &mut stats),
             1 => corr_dim::<Coord2>(&mut rng, dyadic, &mut stats),
@@ -200,15 +220,15 @@ fn search_dim<P: Coordinate>(rng: &mut Rng, dyadic: bool, stats: &mut Stats) {
 
 fn search_path(rng: &mut Rng, stats: &mut Stats) {
     // reversing a path traverses the same curves backwards; reversing twice is the identity
-    let n = 1 + rng.i(6) as usize;
-    let start = Coord2(rng.dyadic(-64, 64, 8), rng.dyadic(-64, 64, 8));
-    let pts: Vec<(Coord2, Coord2, Coord2)> = (0..n).map(|_| (Coord2(rng.r(-100.0, 100.0), rng.r(-100.0, 100.0)), Coord2(rng.r(-100.0, 100.0), rng.r(-100.0, 100.0)), Coord2(rng.r(-100.0, 100.0), rng.r(-100.0, 100.0)))).collect();
-    let path: SimpleBezierPath = (start, pts);
+    let path: SimpleBezierPath = gen_path(rng);
+    let n = path.1.len();
+    
     let rev: SimpleBezierPath = path.reversed();
     let back: SimpleBezierPath = rev.reversed();
     let desc = format!("path={:?}", path);
     stats.case(&desc, n > 1);
-    stats.count("path_reversed");
+    stats.count(if n == 0 { "path_reversed.no_curves" } else { "path_reversed" });
+    if rev.0 != path.1.last().map(|p| p.2).unwrap_or(path.0) { stats.fail("C05", "path_reversed_start", &desc); }
     if back != path { stats.fail("C05", "path_reversed_twice", &desc); }
     let curves: Vec<Curve<Coord2>> = path.to_curves();
     let rcurves: Vec<Curve<Coord2>> = rev.to_curves();
